@@ -203,6 +203,7 @@ func (n4 *node4) deleteChild(ref *nodeRef, b byte) {
 		shiftRightClear(&n4.keys, i+1)
 		copy(n4.children[i:], n4.children[i+1:])
 		n4.childrenLen--
+		n4.children[n4.childrenLen] = nodeRef{} // the vacated slot must not keep the removed child reachable
 	}
 
 	if n4.childrenLen == 1 {
@@ -287,6 +288,7 @@ func (n16 *node16) deleteChild(ref *nodeRef, b byte) {
 	copy(n16.keys[pos:], n16.keys[pos+1:])
 	copy(n16.children[pos:], n16.children[pos+1:])
 	n16.childrenLen--
+	n16.children[n16.childrenLen] = nodeRef{} // the vacated slot must not keep the removed child reachable
 
 	if n16.childrenLen == 3 {
 		n4 := nodePools[nodeKind4].Get().(*node4)
